@@ -162,11 +162,12 @@ def expected_accept(ops, cfg):
 def variants(kind, rng):
     """operand variants around a documented kind: (token, is it the baseline valid one)"""
     out = [("REGISTER", 1), ("REGISTER", 0), ("REGISTER", 15), ("STRING", "s"), ("SYMBOL", "lb"), ("SYMBOL", "dl"),
-           ("SYMBOL", "c5"), ("SYMBOL", "cbig"), ("SYMBOL", "cneg"), ("SYMBOL", "undefined_"), ("SYMBOL", "pc")]
+           ("SYMBOL", "c5"), ("SYMBOL", "cbig"), ("SYMBOL", "cneg"), ("SYMBOL", "undefined_"), ("SYMBOL", "pc"),
+           ("SYMBOL", "cswi"), ("SYMBOL", "crti"), ("SYMBOL", "cadd")]
     rngs = [(-128, 256), (-32768, 65536), (1, 65), (0, 32), (0, 16), (0, 65536)]
     for lo, hi in rngs if not isinstance(kind, tuple) else [(kind[1], kind[2])]:
         out += [("INT", lo - 1), ("INT", lo), ("INT", hi - 1), ("INT", hi)]
-    out += [("INT", 0), ("INT", 5)]
+    out += [("INT", 0), ("INT", 5), ("INT", 0x2200), ("INT", 0x220F), ("INT", 0x2300), ("INT", 0x2210), ("INT", 0xA123)]
     return out
 
 
@@ -183,7 +184,12 @@ def baseline(kind):
 
 
 PREFIX = [("CONSTANT", [("SYMBOL", "c5"), ("INT", 5)]), ("CONSTANT", [("SYMBOL", "cbig"), ("INT", 40000)]),
-          ("CONSTANT", [("SYMBOL", "cneg"), ("INT", -7)]), ("DLABEL", [("SYMBOL", "dl")]), ("INTEGER", [("INT", 1)])]
+          ("CONSTANT", [("SYMBOL", "cneg"), ("INT", -7)]),
+          # constants whose values are the words of SWI(5), RTI() and of an ordinary instruction (seed C09f / C08e:
+          # interrupts hidden behind a named constant were no longer recognised)
+          ("CONSTANT", [("SYMBOL", "cswi"), ("INT", 0x2205)]), ("CONSTANT", [("SYMBOL", "crti"), ("INT", 0x2300)]),
+          ("CONSTANT", [("SYMBOL", "cadd"), ("INT", 0xA123)]),
+          ("DLABEL", [("SYMBOL", "dl")]), ("INTEGER", [("INT", 1)])]
 SUFFIX = [("LABEL", [("SYMBOL", "lb")]), ("NOP", [])]
 
 
@@ -197,7 +203,7 @@ def grid(rng, quick):
                 f = list(base)
                 f[i] = v
                 forms.append(f)
-        if quick:
+        if quick and name != "OPCODE":
             forms = forms[:4] + rng.sample(forms[4:], min(len(forms) - 4, 6))
         for f in forms:
             for mode in (["", "assemble"] if quick else ["", "debug", "assemble", "preprocess"]):
